@@ -139,7 +139,7 @@ class Stats:
         self.examples: list = []
 
 
-ALL_PARENTS = 15
+ALL_PARENTS = 16
 
 
 def replay_cases(run: Run, st, griffe, parents: Parents, cases: list, rnd: random.Random, stats: Stats, origin: str, max_parents: int = ALL_PARENTS):
@@ -225,7 +225,7 @@ def _long_one(run: Run, style: str, st, griffe, parents: Parents, n_examples: in
         @settings(max_examples=n_examples, database=None, deadline=None, derandomize=False, phases=[Phase.generate],
                   suppress_health_check=list(HealthCheck))
         @given(hs.sampled_from(first), hs.lists(hs.sampled_from(alphabet), min_size=5, max_size=max_len), hs.sampled_from(last),
-               hs.sampled_from(sorted(["none", "module", "class", "function", "init", "property", "tuplefn", "genfn", "aliasmod", "tupleprop", "tuple0fn", "gen1fn", "gen2fn", "iterfn", "detachedinit"])),
+               hs.sampled_from(sorted(["none", "module", "class", "function", "init", "property", "tuplefn", "genfn", "aliasmod", "tupleprop", "tuple0fn", "gen1fn", "gen2fn", "iterfn", "detachedinit", "nsfunc"])),
                hs.lists(hs.booleans(), min_size=len(opt_names), max_size=len(opt_names)), hs.integers(0, 11))
         def prop(a, mid, z, parent, optvals, v):
             lines = st.make_fixed_point([a, *mid, z])
